@@ -244,6 +244,7 @@ def encode(segs, planter=None, index_too=True, allow_forbidden=False):
     out = BytesEmitter()
     idx = BytesEmitter()
     active, has_data, last_index = [], {}, {}     # carried state of the format
+    index_string_sizes = {}                        # path -> byte sizes of the strings of one chunk, as declared by the last full index
     for si, seg in enumerate(segs):
         big = seg.big
         if not seg.meta:
@@ -299,6 +300,10 @@ def encode(segs, planter=None, index_too=True, allow_forbidden=False):
         chunks = []            # per chunk: bytes
         per_chunk_layout = []  # per chunk: list of (path, offset in chunk, nbytes, count)
         string_sizes = {}
+        listed_full = set(o.path for o in seg.objs if o.kind == 'full') if seg.meta else set()
+        for p in list(index_string_sizes):
+            if p not in listed_full:
+                string_sizes[p] = index_string_sizes[p]      # index re-used: every chunk must have the declared byte size
         for ci in range(seg.nchunks):
             pieces = []        # (path, tcode, [value images])
             for (p, t, nv) in data_objs:
@@ -308,11 +313,13 @@ def encode(segs, planter=None, index_too=True, allow_forbidden=False):
                     src = last_index[p][2]
                     if src.strings is not None:
                         vals = list(src.strings[ci % len(src.strings)])
-                    elif ci == 0 or p not in string_sizes:
+                    elif p not in string_sizes:
                         vals = [pl.string() for _ in range(nv)]
                     else:
                         vals = [pl.string(nb) for nb in string_sizes[p]]
                     string_sizes.setdefault(p, [len(v.encode('utf-8')) for v in vals])
+                    if p in listed_full:
+                        index_string_sizes[p] = string_sizes[p]
                     if [len(v.encode('utf-8')) for v in vals] != string_sizes[p] and \
                             sum(len(v.encode('utf-8')) for v in vals) != sum(string_sizes[p]):
                         raise Invalid("string chunks of different byte size")
